@@ -202,3 +202,29 @@ def sample(a, n=5, timeout_ms=10000):
         out.append(_z3str(w))
         sol.add(s != w)
     return out
+
+
+def validate_translation(pattern, zre, n=6):
+    """Differential check translator vs Python `re`: members of the z3 language must match,
+    sampled non-members must not.  Returns (#checked, [disagreements])."""
+    bad = []
+    checked = 0
+    for w in sample(zre, n):
+        checked += 1
+        if pattern.match(w) is None or pattern.match(w).end() != len(w):
+            bad.append(("z3-member-not-matched", w))
+    s = z3.String("s")
+    sol = z3.Solver()
+    sol.set("timeout", 10000)
+    sol.add(z3.Not(z3.InRe(s, zre)), z3.Length(s) <= 3, z3.Length(s) >= 1)
+    for _ in range(n):
+        if str(sol.check()) != "sat":
+            break
+        wv = sol.model()[s]
+        w = _z3str(wv)
+        checked += 1
+        m = pattern.match(w)
+        if m is not None and m.end() == len(w):
+            bad.append(("z3-nonmember-matched", w))
+        sol.add(s != wv)
+    return checked, bad
